@@ -84,6 +84,29 @@ fn make_validation_table(long_string_refs: bool) -> Rc<Table> {
     )
 }
 
+/// Checks that the given rows could be stored in a catalog table with the
+/// given columns.
+fn check_catalog_rows(
+    table_name: &str,
+    columns: &[Column],
+    rows: &[Vec<Value>],
+) -> io::Result<()> {
+    for values in rows.iter() {
+        for (column, value) in columns.iter().zip(values.iter()) {
+            if !column.is_valid_value(value) {
+                invalid_input!(
+                    "Cannot create table: {} is not a valid value for \
+                     column {:?} of table {:?}",
+                    value,
+                    column.name(),
+                    table_name
+                );
+            }
+        }
+    }
+    Ok(())
+}
+
 fn is_reserved_table_name(table_name: &str) -> bool {
     table_name == COLUMNS_TABLE_NAME
         || table_name == TABLES_TABLE_NAME
@@ -631,26 +654,21 @@ impl<F: Read + Write + Seek> Package<F> {
         if self.tables.contains_key(&table_name) {
             already_exists!("Table {:?} already exists", table_name);
         }
-        self.insert_rows(
-            Insert::into(COLUMNS_TABLE_NAME).rows(
-                columns
-                    .iter()
-                    .enumerate()
-                    .map(|(index, column)| {
-                        vec![
-                            Value::Str(table_name.clone()),
-                            Value::Int(1 + index as i32),
-                            Value::Str(column.name().to_string()),
-                            Value::Int(column.bitfield()),
-                        ]
-                    })
-                    .collect(),
-            ),
-        )?;
-        self.insert_rows(
-            Insert::into(TABLES_TABLE_NAME)
-                .row(vec![Value::Str(table_name.clone())]),
-        )?;
+        // Build the rows that describe the new table in the catalog tables.
+        let columns_rows: Vec<Vec<Value>> = columns
+            .iter()
+            .enumerate()
+            .map(|(index, column)| {
+                vec![
+                    Value::Str(table_name.clone()),
+                    Value::Int(1 + index as i32),
+                    Value::Str(column.name().to_string()),
+                    Value::Int(column.bitfield()),
+                ]
+            })
+            .collect();
+        let tables_rows: Vec<Vec<Value>> =
+            vec![vec![Value::Str(table_name.clone())]];
         let validation_rows: Vec<Vec<Value>> = columns
             .iter()
             .map(|column| {
@@ -692,6 +710,41 @@ impl<F: Read + Write + Seek> Package<F> {
                 ]
             })
             .collect();
+        // Make sure that the catalog tables can store all of those rows
+        // before modifying anything, so that a table definition that cannot
+        // be recorded (e.g. a name that is too long for the _Validation table)
+        // is refused without leaving a half-created table behind.
+        let validation_columns: Vec<Column> =
+            if table_name == VALIDATION_TABLE_NAME {
+                columns.clone()
+            } else {
+                match self.tables.get(VALIDATION_TABLE_NAME) {
+                    Some(table) => table.columns().to_vec(),
+                    None => not_found!(
+                        "Cannot create table {:?}: the database has no {:?} \
+                         table",
+                        table_name,
+                        VALIDATION_TABLE_NAME
+                    ),
+                }
+            };
+        check_catalog_rows(
+            COLUMNS_TABLE_NAME,
+            self.tables.get(COLUMNS_TABLE_NAME).unwrap().columns(),
+            &columns_rows,
+        )?;
+        check_catalog_rows(
+            TABLES_TABLE_NAME,
+            self.tables.get(TABLES_TABLE_NAME).unwrap().columns(),
+            &tables_rows,
+        )?;
+        check_catalog_rows(
+            VALIDATION_TABLE_NAME,
+            &validation_columns,
+            &validation_rows,
+        )?;
+        self.insert_rows(Insert::into(COLUMNS_TABLE_NAME).rows(columns_rows))?;
+        self.insert_rows(Insert::into(TABLES_TABLE_NAME).rows(tables_rows))?;
         let long_string_refs = self.string_pool.long_string_refs();
         let table = Table::new(table_name.clone(), columns, long_string_refs);
         self.tables.insert(table_name, table);
